@@ -506,14 +506,15 @@ fn eval(name: &str, a: &[Value]) -> Value {
         "render_outcome_list" => {
             use scrut::renderers::renderer::Renderer;
             let kinds = str_arg(&a[0]);
-            let located = a[1].as_bool().unwrap_or(false);
+            let same = a[1].as_str() == Some("same");
+            let located = same || a[1].as_bool().unwrap_or(false);
             let maker = scrut::expectation::ExpectationMaker::new(scrut::rules::registry::RuleRegistry::default());
             let mut outcomes = vec![];
             for (i, k) in kinds.chars().enumerate() {
                 let exp = maker.parse(&format!("want{}q", i)).unwrap();
                 let line = format!("got{}z\n", i).into_bytes();
                 let testcase = scrut::testcase::TestCase { title: format!("title{}t", i), shell_expression: format!("cmd{}c", i), expectations: vec![exp.clone()],
-                    exit_code: None, line_number: 3 + 10 * i, config: scrut::config::TestCaseConfig::empty() };
+                    exit_code: None, line_number: if same { 3 } else { 3 + 10 * i }, config: scrut::config::TestCaseConfig::empty() };
                 let result = match k {
                     'P' => Ok(()),
                     'F' => Err(scrut::testcase::TestCaseError::MalformedOutput(scrut::diff::Diff::new(vec![
@@ -525,7 +526,7 @@ fn eval(name: &str, a: &[Value]) -> Value {
                 };
                 let output = scrut::output::Output { stdout: (if k == 'F' || k == 'C' { line.clone() } else { vec![] }).into(), stderr: vec![].into(),
                     exit_code: scrut::output::ExitStatus::Code(if k == 'C' { 4 } else { 0 }) };
-                outcomes.push(scrut::outcome::Outcome { location: if located { Some(format!("doc{}.md", i % 2)) } else { None }, output, testcase,
+                outcomes.push(scrut::outcome::Outcome { location: if located { Some(format!("doc{}.md", if same { 0 } else { i % 2 })) } else { None }, output, testcase,
                     format: scrut::parsers::parser::ParserType::Markdown, escaping: scrut::escaping::Escaper::Unicode, result });
             }
             let refs: Vec<&scrut::outcome::Outcome> = outcomes.iter().collect();
